@@ -43,6 +43,10 @@ def do_split(ex, st, s, sep):
 
 def do_join(ex, st, sep, parts):
     u = U(ex)
+    if isinstance(parts.t, TSeq) and parts.t.elem.key() == "Char":
+        # "".join(list of characters): the string IS its character sequence
+        ex.used_lib.add("''.join(chars) / list(s): a string and its character sequence are the same value")
+        return parts
     if not (isinstance(parts.t, TSeq) and parts.t.elem == STR):
         raise Unsupported("join of %s" % parts.t)
     pz = parts.z
